@@ -123,6 +123,29 @@ def constructDevSpecial (c : DevSpecialClass) (args : List Arg) : PyRes Cmd :=
   | .zero, _ | .one, _ | .two, _ => .error .TypeError
   | _, _ => .error .NotImplementedError
 
+/-- `_Event.__init__(*, short_address, instance_number, instance_group, device_group)`:
+which keyword arguments are given selects one of the five addressing schemes of
+part 103 Table 3; every other combination raises `ValueError`.  (Range checks of
+the fields happen in the frame assembly, `eventSrcToFrame`.) -/
+def constructEventSrc (sa inum ig dg : Option Nat) : PyRes EventSrc :=
+  match sa with
+  | some sa =>
+      if dg.isSome then .error .ValueError else if ig.isSome then .error .ValueError else
+      match inum with
+      | none => .ok (.device sa)
+      | some n => .ok (.deviceInstance sa n)
+  | none =>
+    match dg with
+    | some g => if inum.isSome then .error .ValueError else if ig.isSome then .error .ValueError
+        else .ok (.deviceGroup g)
+    | none =>
+      match ig with
+      | some g => if inum.isSome then .error .ValueError else .ok (.instanceGroup g)
+      | none =>
+        match inum with
+        | some n => .ok (.inst n)
+        | none => .error .ValueError
+
 /-- the device type under which an object's own frame is decoded -/
 def dtOf : Cmd → Nat
   | .standard c .. => c.dt
